@@ -93,9 +93,11 @@ def run(payload):
     from pde import CylindricalSymGrid, PolarSymGrid, SphericalSymGrid
     pairs = [(SphericalSymGrid((1, 2), 8), SphericalSymGrid((2, 3), 8)), (PolarSymGrid((0.5, 2.5), 6), PolarSymGrid((1.5, 3.5), 6)),
              (CylindricalSymGrid((1, 3), (0, 2), (4, 3)), CylindricalSymGrid((2, 4), (0, 2), (4, 3))),
-             (CartesianGrid([(0, 2)], 8), CartesianGrid([(3, 5)], 8))]
+             (CartesianGrid([(0, 2)], 8), CartesianGrid([(3, 5)], 8)),
+             # bounds -1 and -2: numbers the builtin hash() maps to the same value
+             (CartesianGrid([(-1, 1)], 8), CartesianGrid([(-2, 1)], 8)), (CylindricalSymGrid(2, (-1, 1), (4, 4)), CylindricalSymGrid(2, (-2, 1), (4, 4)))]
     for ga, gb in pairs:
-        bc = {"x-": {"value_expression": "x**2"}, "x+": {"derivative": 0}} if isinstance(ga, CartesianGrid) else "auto_periodic_neumann"
+        bc = {"x-": {"value_expression": "x**2"}, "x+": {"derivative": 0}} if (isinstance(ga, CartesianGrid) and ga.axes_bounds[0][0] >= 0) else "auto_periodic_neumann"
         for backend in ("numba",):
             cases += 1
             try:
@@ -124,6 +126,38 @@ def run(payload):
                 fails.append({"id": "customised_conditions_leak_into_later_requests", "name": name, "max_dev": float(np.max(np.abs(got - want)))})
         except Exception as e:
             fails.append({"id": "history_error", "where": "customised named conditions", "error": f"{type(e).__name__}: {e}"})
+    # ---- dictionaries the caller passes (constants of expressions, boundary conditions) are the caller's: an earlier
+    #      request must not leave anything in them that changes a later request
+    import pde as _pde
+    from pde import VectorField
+    ga_, gb_ = CartesianGrid([[0, 4]], 4), CartesianGrid([[10, 14]], 4)
+    for cls_, expr in ((ScalarField, "a * cartesian[0]"), (VectorField, ["a * cartesian[0]"])):
+        cases += 1
+        try:
+            fresh = cls_.from_expression(gb_, expr, consts={"a": 2.0}).data
+            shared = {"a": 2.0}
+            cls_.from_expression(ga_, expr, consts=shared)
+            after = cls_.from_expression(gb_, expr, consts=shared).data
+            if not np.allclose(fresh, after) or sorted(shared) != ["a"]:
+                fails.append({"id": "caller's_consts_dictionary_modified_by_an_earlier_request", "class": cls_.__name__, "keys_afterwards": sorted(shared), "max_dev": float(np.max(np.abs(fresh - after)))})
+        except Exception as e:
+            fails.append({"id": "history_error", "where": "shared consts", "error": f"{type(e).__name__}: {e}"})
+
+    class _DirichletDiffusion(_pde.DiffusionPDE):
+        default_bc = "value"
+
+    g3 = UnitGrid([3, 3])
+    st3 = ScalarField(g3, np.arange(1.0, 10.0).reshape(3, 3))
+    cases += 1
+    try:
+        fresh = _DirichletDiffusion(bc={"x": {"value": 1}}).evolution_rate(st3).data
+        bc_shared = {"x": {"value": 1}}
+        _pde.DiffusionPDE(bc=bc_shared)
+        after = _DirichletDiffusion(bc=bc_shared).evolution_rate(st3).data
+        if not np.allclose(fresh, after) or sorted(bc_shared) != ["x"]:
+            fails.append({"id": "caller's_bc_dictionary_modified_by_an_earlier_request", "keys_afterwards": sorted(bc_shared), "max_dev": float(np.max(np.abs(fresh - after)))})
+    except Exception as e:
+        fails.append({"id": "history_error", "where": "shared bc dict", "error": f"{type(e).__name__}: {e}"})
     # ---- one field, requests that differ in a single numeric argument (small integers and their negatives)
     g = UnitGrid([4])
     for a, b in ((-1, -2), (-2, -1), (0, -1), (1, 2), (-1.0, -2.0), (2, -2)):
@@ -133,7 +167,11 @@ def run(payload):
         second = float(f.interpolate([10.0], fill=b))
         if first != a or second != b:
             fails.append({"id": "numeric_argument_ignored_after_earlier_request", "call": f"interpolate([10.], fill={a!r}) then fill={b!r}", "got": [first, second], "want": [a, b]})
-    return {"ok": True, "cases": cases, "failures": fails[:6]}
+    seen, first = set(), []
+    for f_ in fails:
+        if f_["id"] not in seen:
+            seen.add(f_["id"]); first.append(f_)
+    return {"ok": True, "cases": cases, "failures": (first + [f_ for f_ in fails if f_ not in first])[:8]}
 
 
 if __name__ == "__main__":
